@@ -1,5 +1,20 @@
 /-
-  C04, list half, with the hypotheses weakened as far as the model allows.
+  C04, list half ("the same text with a list marker of width W before its first line and W spaces before
+  every other non-blank line parses to exactly one single-item list whose item content is B; the set of link
+  definitions found is unchanged"), with the hypotheses of `Props/C04.lean` (`C04_item_wraps_eq`,
+  `C04_item_wraps_partial`, `C04_item_phase_partial`) weakened as far as the model allows:
+
+  * the marker may stand at indentation 0-3 (was: 0) — `leadSp_*`, `parseMarker_first_at`, `tryTypes_leadSp`;
+  * blank lines may be any lines of spaces (was: exactly "\n"), left alone or indented — `parseContinuation_spaces`,
+    `IndentedAs2`, `itemLoop_indented2`: every line of the indented text is taken by `parse_continuation`, the
+    lazy-continuation branch of `ListItem.read` is never entered; the collected buffer is the original lines with
+    the spaces-only lines read as "\n" (`normLine`);
+  * at the dispatcher and in the container readers a line of at most three spaces is not told from "\n"
+    (`tryTypes_spaces`, `tokLoop_spaces_step`, `parseContinuation_spaces`); `BlockCode`, `CodeFence`, `HtmlBlock` do
+    tell them apart, so the parse of the normalised text is in general NOT the parse of the text (examples at the end).
+
+  Main statements (namespace `Mistletoe.Props.C04`): `C04_item_wraps_general_eq`, `C04_item_wraps_general_partial`,
+  `C04_item_phase_general_partial` (+ `_default_`, `_markdown_`, `_same_`, `_h2_`), `C04_htb_of_marker`.
 -/
 import Mistletoe.Props.C04
 namespace Mistletoe.Block
@@ -349,6 +364,30 @@ theorem tryTypes_spaces (cfg : Cfg) (fw : FW) (st : St) (l l0 : Line) (k : Nat) 
     cases t <;> simp only [h0, ho, a1, a2, a3, a4, a5, a6, a7, a8, a9, a10, a11, b1, b2, b3, b4, b5, b6, b7, b8, b9, b10, b11,
       readHeading, Bool.false_eq_true, if_false, if_true, Bool.not_true] <;> exact ih
 
+/-- one line of at most three spaces at the top level of `tokenize_block` is passed over exactly as "\n" is
+    (`tokLoop_nl_step`): an unmatched newline (the buffer becomes loose), or a `BlankLine` under the Markdown renderer -/
+theorem tokLoop_spaces_step (cfg : Cfg) (gas : Nat) (hg : cfg.types.length < gas)
+    (b : Line) (k : Nat) (hk : k ≤ 3) (pre post : List Line) (start : Nat) (st : St) (acc : List Entry) (loose : Bool)
+    (hb : b.s = List.replicate k ' ' ++ ['\n']) :
+    tokLoop cfg (gas + 1) ⟨pre ++ b :: post, pre.length, start⟩ st acc loose =
+      if cfg.types.contains .blankLine then
+        tokLoop cfg gas ⟨(pre ++ [b]) ++ post, (pre ++ [b]).length, start⟩ st (.blankLine (start + pre.length) b.origin :: acc) loose
+      else
+        tokLoop cfg gas ⟨(pre ++ [b]) ++ post, (pre ++ [b]).length, start⟩ st acc true := by
+  have hp := peek_at pre b post start
+  have hsp := tryTypes_spaces cfg ⟨pre ++ b :: post, pre.length, start⟩ st b { s := ['\n'], origin := b.origin } k hk hb rfl rfl
+    cfg.types gas
+  simp only [tokLoop, hp, hsp]
+  by_cases hm : BTok.blankLine ∈ cfg.types
+  · have hc : cfg.types.contains .blankLine = true := by simpa using hm
+    rw [tryTypes_nl_bl cfg _ st _ rfl cfg.types gas hm (by omega)]
+    simp only [hc, if_true]
+    simp [FW.next]
+  · have hc : cfg.types.contains .blankLine = false := by simpa using hm
+    rw [tryTypes_nl cfg _ st _ rfl cfg.types gas hm hg]
+    simp only [hc, Bool.false_eq_true, if_false]
+    simp [FW.next]
+
 /-! ### Documents as they are indented -/
 
 /-- the line consists of spaces and its final newline ("\n" included) -/
@@ -636,5 +675,121 @@ theorem C04_item_phase_general_markdown_partial (ti : Bool) (m : Str) (hm : List
   C04_item_phase_general_partial { types := markdownTypes, tableInterrupt := ti }
     [.linkRefDefBlock, .blankLine, .htmlBlock, .blockCode, .heading, .quote, .codeFence, .thematicBreak]
     [.table, .paragraph] rfl (by decide) (by decide) (by decide) m hm i hi pad h1 h4 s0 ss hok htb blanksToo gas B st' hB
+
+/-! ### Non-vacuity -/
+
+/-- a paragraph, indented code, a nested list with a lazy-looking second line: lines 3 and 6 begin with spaces -/
+def T : List Str := [L "para\n", L "\n", L "    indented code\n", L "\n", L "- nested\n", L "  more\n"]
+
+example : outlineOf (blockPhase dflt 30 T) =
+    ([(0, "p", 1, 1), (0, "code", 3, 3), (0, "list", 5, 5), (1, "item", 5, 5), (2, "p", 5, 5)], 0) := by decide +kernel
+example : textsOf (blockPhase dflt 30 T) = [[L "para\n"], [L "indented code\n"], [L "nested\n", L "more\n"]] := by decide +kernel
+
+/-- marker "1." and two spaces, at indentation 0 -/
+example : indentDocAt 0 (L "1.") 2 false T =
+    [L "1.  para\n", L "\n", L "        indented code\n", L "\n", L "    - nested\n", L "      more\n"] := by decide +kernel
+
+/-- marker "-" and one space, at indentation 2 -/
+example : indentDocAt 2 (L "-") 1 false T =
+    [L "  - para\n", L "\n", L "        indented code\n", L "\n", L "    - nested\n", L "      more\n"] := by decide +kernel
+
+/-- kernel evaluation of the two indented texts: one list, one (loose) item, the entries of `T` one level down on the same lines -/
+example : outlineOf (blockPhase dflt 40 (indentDocAt 0 (L "1.") 2 false T)) =
+    ([(0, "list", 1, 1), (1, "item(loose)", 1, 1), (2, "p", 1, 1), (2, "code", 3, 3), (2, "list", 5, 5), (3, "item", 5, 5),
+      (4, "p", 5, 5)], 0) := by decide +kernel
+example : outlineOf (blockPhase dflt 40 (indentDocAt 2 (L "-") 1 false T)) =
+    ([(0, "list", 1, 1), (1, "item(loose)", 1, 1), (2, "p", 1, 1), (2, "code", 3, 3), (2, "list", 5, 5), (3, "item", 5, 5),
+      (4, "p", 5, 5)], 0) := by decide +kernel
+example : textsOf (blockPhase dflt 40 (indentDocAt 2 (L "-") 1 false T)) =
+    [[L "para\n"], [L "indented code\n"], [L "nested\n", L "more\n"]] := by decide +kernel
+
+/-- `C04_item_phase_general_h2_partial` applies to `T` (every blank line is "\n", so the content is `T`'s own parse):
+    marker "1." + 2 spaces at indentation 0 … -/
+example : ∃ B st', blockPhase dflt 30 T = .ok (B, st') ∧
+    blockPhase dflt 40 (indentDocAt 0 (L "1.") 2 false T) =
+      .ok ({ entries := [.list [.mk B.entries (decide (B.entries.length > 1) && B.loose) 0 4 (L "1.") 1 1] 1 1], loose := false }, st') := by
+  obtain ⟨⟨B, st'⟩, h⟩ := exists_of_isOk (blockPhase dflt 30 T) (by decide +kernel)
+  exact ⟨B, st', h, C04_item_phase_general_h2_partial dflt [.htmlBlock, .blockCode, .heading, .quote, .codeFence, .thematicBreak]
+    [.table, .footnote, .paragraph] rfl (by decide) (by decide) (by decide)
+    (L "1.") (listLeader_ordered (L "1") '.' (by decide) (by decide) (by decide) (Or.inl rfl))
+    0 (by omega) 2 (by omega) (by omega) _ _ (by decide +kernel) (by decide +kernel) (by decide +kernel) false 30 B st' h⟩
+
+/-- … and marker "-" + 1 space at indentation 2 (indentation 2 and content offset 4 reported) -/
+example : ∃ B st', blockPhase dflt 30 T = .ok (B, st') ∧
+    blockPhase dflt 40 (indentDocAt 2 (L "-") 1 false T) =
+      .ok ({ entries := [.list [.mk B.entries (decide (B.entries.length > 1) && B.loose) 2 4 (L "-") 1 1] 1 1], loose := false }, st') := by
+  obtain ⟨⟨B, st'⟩, h⟩ := exists_of_isOk (blockPhase dflt 30 T) (by decide +kernel)
+  exact ⟨B, st', h, C04_item_phase_general_h2_partial dflt [.htmlBlock, .blockCode, .heading, .quote, .codeFence, .thematicBreak]
+    [.table, .footnote, .paragraph] rfl (by decide) (by decide) (by decide)
+    (L "-") (listLeader_bullet '-' (Or.inl rfl))
+    2 (by omega) 1 (by omega) (by omega) _ _ (by decide +kernel) (by decide +kernel) (by decide +kernel) false 30 B st' h⟩
+
+/-- the same text with spaces on its blank lines (two after the paragraph, six after the indented code) -/
+def T2 : List Str := [L "para\n", L "  \n", L "    indented code\n", L "      \n", L "- nested\n", L "  more\n"]
+
+example : normDoc T2 = T := by decide +kernel
+
+/-- `C04_item_phase_general_default_partial` applies to `T2`, the blank lines left as they are or indented too,
+    under the Markdown renderer's types as well: the content is the parse of `normDoc T2` = `T` -/
+example (bt : Bool) : ∃ B st', blockPhase dflt 30 (normDoc T2) = .ok (B, st') ∧
+    blockPhase dflt 40 (indentDocAt 2 (L "-") 1 bt T2) =
+      .ok ({ entries := [.list [.mk B.entries (decide (B.entries.length > 1) && B.loose) 2 4 (L "-") 1 1] 1 1], loose := false }, st') := by
+  obtain ⟨⟨B, st'⟩, h⟩ := exists_of_isOk (blockPhase dflt 30 (normDoc T2)) (by decide +kernel)
+  exact ⟨B, st', h, C04_item_phase_general_default_partial true (L "-") (listLeader_bullet '-' (Or.inl rfl))
+    2 (by omega) 1 (by omega) (by omega) _ _ (by decide +kernel) (by decide +kernel) bt 30 B st' h⟩
+
+example : ∃ B st', blockPhase mdown 30 (normDoc T2) = .ok (B, st') ∧
+    blockPhase mdown 42 (indentDocAt 3 (L "7)") 4 true T2) =
+      .ok ({ entries := [.list [.mk B.entries (decide (B.entries.length > 1) && B.loose) 3 9 (L "7)") 1 1] 1 1], loose := false }, st') := by
+  obtain ⟨⟨B, st'⟩, h⟩ := exists_of_isOk (blockPhase mdown 30 (normDoc T2)) (by decide +kernel)
+  exact ⟨B, st', h, C04_item_phase_general_markdown_partial true (L "7)")
+    (listLeader_ordered (L "7") ')' (by decide) (by decide) (by decide) (Or.inr rfl))
+    3 (by omega) 4 (by omega) (by omega) _ _ (by decide +kernel) (by decide +kernel) true 30 B st' h⟩
+
+example : indentDocAt 2 (L "-") 1 true T2 =
+    [L "  - para\n", L "      \n", L "        indented code\n", L "          \n", L "    - nested\n", L "      more\n"] := by decide +kernel
+example : textsOf (blockPhase dflt 40 (indentDocAt 2 (L "-") 1 true T2)) =
+    [[L "para\n"], [L "indented code\n"], [L "nested\n", L "more\n"]] := by decide +kernel
+
+/-! ### Why the content is the parse of `normDoc`, and why each remaining hypothesis (model = implementation on all of them) -/
+
+/-- `T2` itself parses otherwise than `normDoc T2`: its indented code block keeps the spaces-only line that follows it
+    (`BlockCode.read` counts only "\n" lines as trailing blanks) — so `hsame` fails for `T2`, and the item's content is not
+    `T2`'s parse.  Implementation: BlockCode 'indented code\n  \n' at top level, 'indented code\n' inside the item. -/
+example : textsOf (blockPhase dflt 30 T2) = [[L "para\n"], [L "indented code\n", L "  \n"], [L "nested\n", L "more\n"]] := by decide +kernel
+
+/-- outside any code block too: a line of four spaces after a paragraph starts an indented code block (`BlockCode.start` does not
+    look at the rest of the line), but inside the item it is read as "\n" -/
+def spaces4 : List Str := [L "a\n", L "    \n", L "b\n"]
+example : outlineOf (blockPhase dflt 30 spaces4) = ([(0, "p", 1, 1), (0, "code", 2, 2), (0, "p", 3, 3)], 0) := by decide +kernel
+example : outlineOf (blockPhase dflt 30 (normDoc spaces4)) = ([(0, "p", 1, 1), (0, "p", 3, 3)], 0) := by decide +kernel
+example : outlineOf (blockPhase dflt 40 (indentDocAt 0 (L "-") 1 false spaces4)) =
+    ([(0, "list", 1, 1), (1, "item(loose)", 1, 1), (2, "p", 1, 1), (2, "p", 3, 3)], 0) := by decide +kernel
+example : itemDocOk2 spaces4 = true := by decide +kernel
+
+/-- `i ≤ 3`: at indentation 4 the marker line is indented code -/
+example : outlineOf (blockPhase dflt 40 (indentDocAt 4 (L "-") 1 false [L "a\n", L "b\n"])) = ([(0, "code", 1, 1)], 0) := by decide +kernel
+
+/-- `pad ≤ 4`: five spaces after the marker leave four of them to the content (content offset 2), and the second line,
+    indented by 6, keeps four spaces as well: `a / b` becomes a code block -/
+example : outlineOf (blockPhase dflt 30 [L "a\n", L "b\n"]) = ([(0, "p", 1, 1)], 0) := by decide +kernel
+example : outlineOf (blockPhase dflt 40 (indentDocAt 0 (L "-") 5 false [L "a\n", L "b\n"])) =
+    ([(0, "list", 1, 1), (1, "item", 1, 1), (2, "code", 1, 1)], 0) := by decide +kernel
+
+/-- `hc0`: the text begins with U+2003 (not a space, but `str.isspace`): `ListItem.pattern` takes it as padding, the content
+    offset becomes 3, and `bar` behind two spaces is no longer part of the item -/
+def emsp : List Str := [L "\u2003foo\n", L "\n", L "bar\n"]
+example : outlineOf (blockPhase dflt 30 emsp) = ([(0, "p", 1, 1), (0, "p", 3, 3)], 0) := by decide +kernel
+example : outlineOf (blockPhase dflt 40 (indentDocAt 0 (L "-") 1 false emsp)) =
+    ([(0, "list", 1, 1), (1, "item", 1, 1), (2, "p", 1, 1), (0, "p", 3, 3)], 0) := by decide +kernel
+
+/-- `htb`: the text `* *` (a list in a list) behind the marker "* " is the thematic break `* * *` -/
+example : outlineOf (blockPhase dflt 30 [L "* *\n"]) =
+    ([(0, "list", 1, 1), (1, "item", 1, 1), (2, "list", 1, 1), (3, "item", 1, 1)], 0) := by decide +kernel
+example : outlineOf (blockPhase dflt 40 (indentDocAt 0 (L "*") 1 false [L "* *\n"])) = ([(0, "hr", 1, 1)], 0) := by decide +kernel
+/-- no such coincidence for "+", "N." and "N)" -/
+example (rest : Str) : Scan.thematicBreak (List.replicate 3 ' ' ++ (L "12." ++ rest)) = false :=
+  C04_htb_of_marker (L "12.") (listLeader_ordered (L "12") '.' (by decide) (by decide) (by decide) (Or.inl rfl)) 3 (by omega) rest
+    (by intro c m' h; cases h; decide)
 
 end Mistletoe.Props.C04
